@@ -4,6 +4,7 @@ import (
 	"crypto/ed25519"
 	"fmt"
 	"time"
+	"verif/internal/snap"
 
 	"verif/internal/refmodel"
 
@@ -28,6 +29,41 @@ import (
 type ErrNotConstructible struct{ Why string }
 
 func (e ErrNotConstructible) Error() string { return "not constructible: " + e.Why }
+
+// ErrArgumentMutated: a constructor changed a value it was only given to read (deep snapshot of the arguments
+// before and after the call differs). Callers own their arguments - a Mapping taken from a received structure,
+// key material, lease lists - and go on using them.
+type ErrArgumentMutated struct{ Entry, What string }
+
+func (e ErrArgumentMutated) Error() string {
+	return e.Entry + " changed its argument: " + e.What
+}
+
+// argGuard snapshots constructor arguments; check() reports the first that changed.
+type argGuard struct {
+	names []string
+	vals  []any
+	h     [][32]byte
+}
+
+func guardArgs(kv ...any) *argGuard {
+	g := &argGuard{}
+	for i := 0; i+1 < len(kv); i += 2 {
+		g.names = append(g.names, kv[i].(string))
+		g.vals = append(g.vals, kv[i+1])
+		g.h = append(g.h, snap.Hash(kv[i+1], snap.Options{}))
+	}
+	return g
+}
+
+func (g *argGuard) check(entry string) error {
+	for i, v := range g.vals {
+		if snap.Hash(v, snap.Options{}) != g.h[i] {
+			return ErrArgumentMutated{entry, g.names[i]}
+		}
+	}
+	return nil
+}
 
 // KeyCert builds the library KeyCertificate for a model identity through the constructors
 // (typed constructor for the plain form, certificate constructor for extra payload).
@@ -220,9 +256,13 @@ func LeaseSet2(ls refmodel.LeaseSet2, signer refmodel.KeyPair) (*lease_set2.Leas
 	} else {
 		return nil, ErrNotConstructible{err.Error()}
 	}
+	g := guardArgs("destination", d, "offline signature", off, "options mapping", &opts, "encryption keys", keys, "leases", leases)
 	v, err := lease_set2.NewLeaseSet2(*d, ls.Published, ls.Expires, ls.Flags, off, opts, keys, leases, sk)
 	if err != nil {
 		return nil, err
+	}
+	if e := g.check("lease_set2.NewLeaseSet2"); e != nil {
+		return &v, e
 	}
 	return &v, nil
 }
